@@ -396,3 +396,100 @@ def usym(fname, *args):
             if n * n == a.numerator and d * d == a.denominator:
                 return Fraction(n, d)
     return sym("%s(%s)" % (fname, "; ".join(parts)))
+
+
+class Term:
+    """an opaque value (an Eigen vector / matrix / clock reading ...) named by the expression that produced it; pure member functions and
+    arithmetic build new terms, so equal computations give equal terms"""
+
+    PURE = {"cwiseProduct", "unaryExpr", "transpose", "adjoint", "eval", "cwiseAbs2", "cwiseAbs", "normalized", "array", "matrix", "head", "tail", "segment", "col", "row",
+            "asDiagonal", "cwiseQuotient", "cwiseSqrt", "sparseView", "derived", "template"}
+
+    def __init__(self, name):
+        self.name = name
+
+    def show(self):
+        return self.name
+
+    def __eq__(self, o):
+        return isinstance(o, Term) and o.name == self.name
+
+    def __hash__(self):
+        return hash(self.name)
+
+    def __deepcopy__(self, memo):
+        return self
+
+    def __getattr__(self, attr):
+        if attr.startswith("m_") and attr[2:] in Term.PURE:
+            meth = attr[2:]
+
+            def f(M, a, t, meth=meth):
+                return Term("%s.%s(%s)" % (self.name, meth, ", ".join(show_val(x) for x in a)))
+            return f
+        raise AttributeError(attr)
+
+    def _bin(self, M, a, b, op):
+        return Term("(%s %s %s)" % (show_val(a), op, show_val(b)))
+
+    def op_add(self, M, a, b):
+        return self._bin(M, a, b, "+")
+
+    def op_sub(self, M, a, b):
+        return self._bin(M, a, b, "-")
+
+    def op_mul(self, M, a, b):
+        return self._bin(M, a, b, "*")
+
+    def op_div(self, M, a, b):
+        return self._bin(M, a, b, "/")
+
+
+class OptVal:
+    """std::optional<T> holding a plain value"""
+
+    def __init__(self, v=mach.UNSET):
+        self.v = v
+
+    def show(self):
+        return "optional(%s)" % ("empty" if self.v is mach.UNSET else show_val(self.v))
+
+    def __deepcopy__(self, memo):
+        return OptVal(copy.deepcopy(self.v, memo))
+
+    def m_has_value(self, M, a, t):
+        return self.v is not mach.UNSET
+
+    def truth(self):
+        return self.v is not mach.UNSET
+
+    def m_value(self, M, a, t):
+        if self.v is mach.UNSET:
+            raise AbstractViolation("value() of an empty optional")
+        return mach.FnRef(lambda: self.v, self.set)
+
+    def deref(self):
+        return self.m_value(None, [], None)
+
+    def set(self, v):
+        self.v = v
+
+    def m_value_or(self, M, a, t):
+        return self.v if self.v is not mach.UNSET else a[0]
+
+    def m_reset(self, M, a, t):
+        self.v = mach.UNSET
+
+    def m_emplace(self, M, a, t):
+        self.v = a[0]
+
+    def assign_from(self, M, v):
+        v = M.rv(v)
+        if isinstance(v, OptVal):
+            self.v = v.v
+        elif isinstance(v, Vec) and v.name == "initializer list" and not v.items:
+            self.v = mach.UNSET
+        elif v is None:
+            self.v = mach.UNSET
+        else:
+            self.v = v
